@@ -77,6 +77,17 @@ let peer_site_ok (s : sigst) (fn, idx) : bool =
   | CWakerRead, "wake", 2 -> s.s_fl = FlAsync
   | _ -> false
 
+(* ---------------- coverage of the protocol model by the accepted traces ---------------- *)
+let str_opc = function
+  | OPriv -> "OPriv" | OWait -> "OWait" | OLow _ -> "OLow" | OCasReady -> "OCasReady" | OParkLoop -> "OParkLoop"
+  | OParked -> "OParked" | OTimed -> "OTimed" | OTimedFinal -> "OTimedFinal" | OTimedFalse -> "OTimedFalse"
+  | OCancelling -> "OCancelling" | APending -> "APending" | ABlocking -> "ABlocking" | ORet _ -> "ORet" | OEnded -> "OEnded"
+let str_cpc = function
+  | CNone -> "CNone" | CClaimed -> "CClaimed" | CSlotDone -> "CSlotDone" | CKindRead -> "CKindRead" | CCasFailed -> "CCasFailed"
+  | CWakerRead -> "CWakerRead" | CStored -> "CStored" | CDone -> "CDone"
+let covered : (string, unit) Hashtbl.t = Hashtbl.create 256
+let fl_name s = match s.s_fl, s.s_timed with FlAsync, _ -> "async" | FlSync, true -> "timed" | FlSync, false -> "sync"
+
 (* ---------------- per-signal acceptor ---------------- *)
 type sigrec = { owner : int; mutable st : sigst; mutable dead : bool }
 
@@ -103,7 +114,11 @@ let check_signals (evs : ev array) : string option =
     | Some r, Some site ->
       (* the final load of wait_timeout is where the deadline has passed *)
       (if own && site = ("wait_timeout", 4) && r.st.s_o = OTimed then
-         match sstep r.st EDeadline with Some s1 -> r.st <- s1 | None -> ());
+         match sstep r.st EDeadline with
+         | Some s1 ->
+           Hashtbl.replace covered (Printf.sprintf "%s/%s/%s/Deadline" (fl_name r.st) (str_opc r.st.s_o) (str_cpc r.st.s_c)) ();
+           r.st <- s1
+         | None -> ());
       let ok = if own then owner_site_ok r.st site else peer_site_ok r.st site in
       if not ok && not r.dead then begin
         (if !err = None then
@@ -116,11 +131,14 @@ let check_signals (evs : ev array) : string option =
     match Hashtbl.find_opt sigs n with
     | None -> ()
     | Some r ->
-      if r.dead then (if not optional then fail i n e "event on a signal whose owner already ended it")
+      (* the wake-up itself touches no signal memory (the waker was copied out before the final store),
+         so it may follow the owner's end; the model decides *)
+      if r.dead && e <> EWakeCall && e <> EUnpark then (if not optional then fail i n e "event on a signal whose owner already ended it")
       else begin
         let res = sstep r.st e in
         match res with
         | Some s' ->
+          Hashtbl.replace covered (Printf.sprintf "%s/%s/%s/%s" (fl_name r.st) (str_opc r.st.s_o) (str_cpc r.st.s_c) (str_sev e)) ();
           r.st <- s';
           if s'.s_viol then fail i n e "access without its ownership token (data race / access after the owner is gone)"
           else if not (safe s') then fail i n e "protocol state not safe (lost wake-up or wrong result)"
@@ -435,6 +453,33 @@ let check_outcome (cap : string) (progs : (int * (string list * string) list) li
   else Some "no operation-level interleaving of the atomic channel (Atomic.astep) produces these results"
 
 (* ---------------- main loop ---------------- *)
+(* every (flavour, owner pc, peer pc, event) transition of the model's reachable part *)
+(* orderings do not matter for which (state, event) pairs exist: use the strongest everywhere *)
+let actual_ords = { r_poll_load = SeqCst; r_poll_fence = SeqCst; r_abw_load0 = SeqCst; r_abw_fence0 = SeqCst; r_abw_load1 = SeqCst;
+  r_abw_fence1 = SeqCst; r_abw_load2 = SeqCst; r_abw_fence2 = SeqCst; r_wait_load0 = SeqCst; r_wait_fence0 = SeqCst;
+  r_wait_load1 = SeqCst; r_wait_fence1 = SeqCst; r_wait_cas_s = SeqCst; r_wait_cas_f = SeqCst; r_wait_park_load = SeqCst;
+  r_wt_load0 = SeqCst; r_wt_fence0 = SeqCst; r_wt_load1 = SeqCst; r_wt_fence1 = SeqCst; r_wt_final = SeqCst; r_isterm = SeqCst;
+  r_wake_cas_s = SeqCst; r_wake_cas_f = SeqCst; r_wake_store_sync = SeqCst; r_wake_store_async = SeqCst }
+let model_transitions () : string list =
+  let seen = Hashtbl.create 1024 and trans = Hashtbl.create 1024 in
+  let rec go = function
+    | [] -> ()
+    | s :: rest ->
+      if Hashtbl.mem seen s || s.s_viol then go rest
+      else begin
+        Hashtbl.add seen s ();
+        let evs = owner_events actual_ords s @ claimer_events actual_ords s in
+        let next = List.filter_map (fun e ->
+            match sstep s e with
+            | Some s' ->
+              Hashtbl.replace trans (Printf.sprintf "%s/%s/%s/%s" (fl_name s) (str_opc s.s_o) (str_cpc s.s_c) (str_sev e)) ();
+              Some s'
+            | None -> None) evs in
+        go (next @ rest)
+      end in
+  go sinits;
+  List.sort compare (Hashtbl.fold (fun k () acc -> k :: acc) trans [])
+
 let run_h2check () =
   load_sites ();
   let cur : (string * string * string list) option ref = ref None in
@@ -481,4 +526,6 @@ let run_h2check () =
        else if l = "Z" then (flush_exec (); cur := None; lines := [])
        else lines := l :: !lines
      done
-   with End_of_file -> ())
+   with End_of_file -> ());
+  (* protocol coverage of this batch *)
+  Printf.printf "C %s\n" (String.concat " " (List.sort compare (Hashtbl.fold (fun k () acc -> k :: acc) covered [])))
